@@ -336,9 +336,10 @@ Section Pipeline.
   Proof.
     intros G V H Hl. unfold Model.apply_convert in H.
     destruct (decompose fuel (st_font s) g) as [[g' d]|] eqn:E; [|discriminate].
-    inversion H; subst; simpl in *. apply orb_false_iff in Hl as (_ & ->).
+    inversion H; subst; simpl in *. apply orb_false_iff in Hl as (Hls & ->).
     assert (st_font s n <> None) as Hn by (destruct V as (_ & _ & gx & Hx & _); congruence).
-    split; simpl; auto.
+    split; simpl.
+    - now rewrite Hls.
     - eapply inv_decompose; eauto. apply (good_inv s G).
     - intros m Hm. destruct (name_eqb m n) eqn:Em.
       + apply name_eqb_eq in Em; subst. apply (good_dom s G); auto.
@@ -387,8 +388,9 @@ Section Pipeline.
   Proof.
     unfold Model.flatten_step. intros G H Hl. destruct (st_font s n) as [g|] eqn:E; [|discriminate].
     destruct (flatten_glyph fuel (st_font s) g) as [[g' d]|] eqn:Ef; [|discriminate].
-    inversion H; subst; simpl in *. apply orb_false_iff in Hl as (_ & ->).
-    split; simpl; auto.
+    inversion H; subst; simpl in *. apply orb_false_iff in Hl as (Hls & ->).
+    split; simpl.
+    - now rewrite Hls.
     - eapply inv_flatten; eauto; [apply (good_inv s G)|]. apply version_current; auto. apply (good_inv s G).
     - intros m Hm. destruct (name_eqb m n) eqn:Em.
       + apply name_eqb_eq in Em; subst. apply (good_dom s G); congruence.
@@ -401,23 +403,27 @@ Section Pipeline.
   Lemma optional_transforms_good fuel fl s s' :
     good s -> optional_transforms fuel fl s = Some s' -> st_lossy s' = false -> good s'.
   Proof.
-    unfold Model.optional_transforms. intros G H Hl. destruct (fl_decompose fl).
-    - eapply (fold_opt_good (convert_if fuel (has_comps P T))); eauto.
-      + intros; eapply convert_if_mono; eauto.
-      + intros; eapply convert_if_good; eauto.
-    - destruct (if fl_decompose_tr fl then _ else _) as [s1|] eqn:E1; [|discriminate].
-      assert (st_lossy s1 = false -> good s1) as G1.
-      { intro Hl1. destruct (fl_decompose_tr fl); [|inversion E1; subst; auto].
-        eapply (fold_opt_good (convert_if fuel (has_nonidentity_2x2 P T tnonid))); eauto.
-        - intros; eapply convert_if_mono; eauto.
-        - intros; eapply convert_if_good; eauto. }
-      destruct (fl_flatten fl); [|inversion H; subst; auto].
-      assert (st_lossy s1 = false) as Hl1.
-      { destruct (st_lossy s1) eqn:E; auto.
-        rewrite (fold_opt_mono (flatten_step fuel) _ (flatten_step_mono fuel) s1 s' H E) in Hl. discriminate. }
-      eapply (fold_opt_good (flatten_step fuel)); eauto.
-      + apply flatten_step_mono.
-      + intros; eapply flatten_step_good; eauto.
+    unfold Model.optional_transforms. intros G H Hl.
+    assert (forall p l s0 s1, good s0 -> fold_opt (convert_if fuel p) l s0 = Some s1 -> st_lossy s1 = false -> good s1) as Hconv.
+    { intros p l s0 s1 G0 H0 Hl0.
+      apply (fold_opt_good (convert_if fuel p) l (convert_if_mono fuel p)
+               (fun a n b Ga Hab Hb => convert_if_good fuel p a n b Ga Hab Hb) s0 s1 G0 H0 Hl0). }
+    assert (forall l s0 s1, good s0 -> fold_opt (flatten_step fuel) l s0 = Some s1 -> st_lossy s1 = false -> good s1) as Hflat.
+    { intros l s0 s1 G0 H0 Hl0.
+      apply (fold_opt_good (flatten_step fuel) l (flatten_step_mono fuel)
+               (fun a n b Ga Hab Hb => flatten_step_good fuel a n b Ga Hab Hb) s0 s1 G0 H0 Hl0). }
+    destruct (fl_decompose fl); [exact (Hconv _ _ _ _ G H Hl)|].
+    destruct (fl_decompose_tr fl).
+    - destruct (fold_opt (convert_if fuel (has_nonidentity_2x2 P T tnonid)) (st_order s) s) as [s1|] eqn:E1; [|discriminate].
+      destruct (fl_flatten fl).
+      + assert (st_lossy s1 = false) as Hl1.
+        { destruct (st_lossy s1) eqn:E; auto.
+          rewrite (fold_opt_mono (flatten_step fuel) _ (flatten_step_mono fuel) s1 s' H E) in Hl. discriminate. }
+        exact (Hflat _ _ _ (Hconv _ _ _ _ G E1 Hl1) H Hl).
+      + inversion H; subst. exact (Hconv _ _ _ _ G E1 Hl).
+    - destruct (fl_flatten fl).
+      + exact (Hflat _ _ _ G H Hl).
+      + inversion H; subst; exact G.
   Qed.
 
   (* ---- hoisting contours; the fixing loop ------------------------------------- *)
